@@ -301,12 +301,17 @@ def eval_pattern(pattern, flags, tier, how="match"):
         budget = 3 * 10 ** 5 if tier == "quick" else 3 * 10 ** 6
         worst = None
         nfam = 0
+        exceeded = 0
         for pre, pump, suf in families(chars, a.get("prefix"), a.get("pump"), deep=bool(a.get("eda"))):
             pts = model_growth(run, pre, pump, suf, budget, (8, 16, 32, 48))
             nfam += 1
             score = (pts[-1][2], local_degree(pts), pts[-1][1])
             if worst is None or score > worst[0]:
                 worst = (score, (pre, pump, suf), pts)
+            exceeded += 1 if pts[-1][2] else 0
+            if exceeded >= 5:
+                break           # (five families already exhaust the step budget: the real engine decides on the worst of them; going
+                                #  through the remaining thousands at the full budget each only costs time on a tree that is broken)
         out["families"] = nfam
         out["worst_family"] = {"prefix": worst[1][0], "pump": worst[1][1], "suffix": worst[1][2],
                                "points_len_steps": [[p[0], p[1]] for p in worst[2]], "budget_exceeded": worst[0][0],
